@@ -335,6 +335,11 @@ class Ctx:
         if len(verdicts) != len(cases):
             raise Infra("harness returned %d verdicts for %d cases (%s)" % (len(verdicts), len(cases), family))
         bad = [v for v in verdicts if not v.get("ok")]
+        broken = [v for v in bad if v.get("signature") in ("badcase", "harness")]
+        if broken:
+            raise Infra("harness could not run %d cases (%s): %s" % (len(broken), family, json.dumps(broken[0])[:1500]))
+        self.cov.setdefault("skipped", 0)
+        self.cov["skipped"] += sum(1 for v in verdicts if v.get("ok") and str(v.get("detail", "")).startswith("skipped"))
         self.cov["traces_validated_against_impl"] += len(verdicts)
         self.cov["evaluations"] += len(verdicts)
         if bad and confirm:
